@@ -209,6 +209,39 @@ def check_case(eng, d, case, oc):
     return ok
 
 
+def check_edit_sequence(eng, d, oc):
+    """One process, one directory: {outer} refers to {inner}; inner is edited, then deleted, while outer's page is not
+    touched. Every expansion must read the saved queries as they are NOW."""
+    from zorg.service.swog._saved_queries import expand_saved_queries
+    from pathlib import Path
+    import shutil
+    shutil.rmtree(os.path.join(d, "zoq"), ignore_errors=True)
+    steps = [{"inner": "# W @home\n", "outer": "# S note W +proj {inner} O alpha G none\n"},
+             {"inner": "# W @work | -\n"},
+             {"inner": None}]
+    saved = {}
+    q = "W {outer} G none"
+    for k, change in enumerate(steps):
+        for name, text in change.items():
+            path = os.path.join(d, "zoq", name + ".zoq")
+            if text is None:
+                os.remove(path)
+                saved.pop(name)
+            else:
+                write_tree(d, {"zoq/%s.zoq" % name: text})
+                saved[name] = text
+        with quiet():
+            impl = expand_saved_queries(Path(d), q)
+        oc.evaluations += 1
+        model = eng.call("expand_saved", len(saved) + 2, [[a, b] for a, b in saved.items()], q)
+        impl_r = ["ok", impl] if impl is not None else ["exn", "missing"]
+        if model[0] != "oom" and impl_r != model:
+            oc.spec_fail.append(({"saved_now": dict(saved), "q": q, "step": k, "history": "outer untouched; inner written, rewritten, deleted"},
+                                 {"expanded": impl}, {"the_saved_queries_as_they_are_now_give": model}, None))
+            return False
+    return True
+
+
 def run(oc, tier, seed):
     rng = random.Random(seed)
     eng = lib.Engine()
@@ -223,9 +256,12 @@ def run(oc, tier, seed):
         for f in sorted(glob.glob(os.path.join(lib.VERIF, "corpus", "C15", "*.json"))):
             check_case(eng, d, json.load(open(f)), oc)
         search = 200
+        check_edit_sequence(eng, d, oc)
         for i in range(n + 200):
             if i >= n and not oc.corr_mismatch:
                 break
+            if i == n // 2 and not any(f[3] is None for f in oc.spec_fail):
+                check_edit_sequence(eng, d, oc)          # again, after many other expansions in the same process
             case = gen_case(rng)
             ok = check_case(eng, d, case, oc)
             if any("|" in v.split("\n")[0] or "{" in v for v in case["saved"].values()):
